@@ -1318,13 +1318,24 @@ func c01R19(c *Ctx, r *Report) {
 		return
 	}
 	info := fn.Info()
-	mapsIn := func(x ast.Node) map[string]bool {
+	var mapsInDepth func(finfo *types.Info, x ast.Node, depth int) map[string]bool
+	mapsInDepth = func(finfo *types.Info, x ast.Node, depth int) map[string]bool {
 		out := map[string]bool{}
 		ast.Inspect(x, func(y ast.Node) bool {
-			if ix, ok := y.(*ast.IndexExpr); ok {
-				if f := fieldOf(info, ix.X); f != nil {
+			switch z := y.(type) {
+			case *ast.IndexExpr:
+				if f := fieldOf(finfo, z.X); f != nil {
 					if _, isMap := f.Type().Underlying().(*types.Map); isMap {
 						out[f.Name()] = true
+					}
+				}
+			case *ast.CallExpr:
+				// a same-package helper that does the look-up (one level)
+				if depth > 0 {
+					if h := c.FnOf(callee(finfo, z)); h != nil && h.Decl != nil && h.Decl.Body != nil && h.Obj.Pkg() == fn.Obj.Pkg() && h.Obj != fn.Obj {
+						for k := range mapsInDepth(h.Info(), h.Decl.Body, depth-1) {
+							out[k] = true
+						}
 					}
 				}
 			}
@@ -1332,6 +1343,7 @@ func c01R19(c *Ctx, r *Report) {
 		})
 		return out
 	}
+	mapsIn := func(x ast.Node) map[string]bool { return mapsInDepth(info, x, 1) }
 	// the innermost if-body that holds both the UnionExtract literal and a read of b.slots
 	var region *ast.BlockStmt
 	walkWithStack(fn.Decl.Body, func(x ast.Node, stack []ast.Node) bool {
@@ -1347,7 +1359,7 @@ func c01R19(c *Ctx, r *Report) {
 		}
 		return true
 	})
-	if !r.Anchor(rule, region != nil, "loadIdent: the branch that builds mir.UnionExtract from b.slots") {
+	if !r.Anchor(rule, region != nil && mapsIn(region)["slots"], "loadIdent: the branch that builds mir.UnionExtract from b.slots") {
 		return
 	}
 	// the plain path: storage maps read outside the region under a test of the symbol kind against parameter/receiver
@@ -2242,4 +2254,65 @@ func c01R20(c *Ctx, r *Report) {
 		r.Check(accepted[want], rule, fn.Name(), "a by-value "+want+" parameter gets its entry slot", c.pos(loop.Pos()),
 			"a parameter of this kind has no stack slot until the first `&'p` or assignment is lowered; the loop condition lowered before it keeps reading the incoming value: `fn walk(c: Color) -> i32 { let steps := 0; while c != Color::Blue && steps < 100 { next(&'c); steps = steps + 1; } return steps; }` returned 100 for 2, and `while len(a) < 3 { a = more(a); … }` with a []i32 parameter never saw the new a")
 	}
+}
+
+
+// ---- C18.R14: a store into a narrowed union reaches the union -------------------------------------------------------
+
+func init() {
+	lateInits = append(lateInits, func() {
+		props["C18"].Quick = append(props["C18"].Quick, c18R14)
+		props["C01"].Quick = append(props["C01"].Quick, c18R14)
+		props["C18"].Explanation += " (R14) lowerFieldAddr addresses a field of a variable narrowed from a union to a struct variant inside the union's own storage (storage + tag), before it would fall back to the value path, whose UnionExtract hands out a copy of the payload."
+	})
+}
+
+func c18R14(c *Ctx, r *Report) {
+	const rule = "C18.R14"
+	r.Describe(rule, "mir/gen.lowerFieldAddr: before the fallback `b.lowerExpr(expr.X)` a branch takes the base pointer from a helper that tests isNarrowedUnionIdent and returns emitPtrAdd(<union storage>, 4, …) without building a UnionExtract")
+	fn := c.LookupFn(pkgMIRGen, "(*functionBuilder).lowerFieldAddr")
+	lower := c.LookupFn(pkgMIRGen, "(*functionBuilder).lowerExpr")
+	if !r.Anchor(rule, fn != nil && lower != nil && fn.Decl.Body != nil, "mir/gen lowerFieldAddr / lowerExpr") {
+		return
+	}
+	info := fn.Info()
+	inPlace := func(h *Fn) bool {
+		if h == nil || h.Decl == nil || h.Decl.Body == nil {
+			return false
+		}
+		hinfo := h.Info()
+		tests, adds, copies := false, false, false
+		ast.Inspect(h.Decl.Body, func(x ast.Node) bool {
+			switch y := x.(type) {
+			case *ast.CallExpr:
+				if f := callee(hinfo, y); f != nil {
+					if f.Name() == "isNarrowedUnionIdent" {
+						tests = true
+					}
+					if f.Name() == "emitPtrAdd" && len(y.Args) >= 2 {
+						if v := constOf(hinfo, y.Args[1]); v != nil && intVal(v) == 4 {
+							adds = true
+						}
+					}
+				}
+			case *ast.CompositeLit:
+				if isNamed(hinfo.TypeOf(y), Mod+"/"+pkgMIR, "UnionExtract") {
+					copies = true
+				}
+			}
+			return true
+		})
+		return tests && adds && !copies
+	}
+	var helperPos, fallbackPos token.Pos
+	for _, cl := range callsIn(fn.Decl.Body, false) {
+		if isCallTo(info, cl, lower.Obj) && fallbackPos == token.NoPos {
+			fallbackPos = cl.Pos()
+		}
+		if h := c.FnOf(callee(info, cl)); h != nil && inPlace(h) && helperPos == token.NoPos {
+			helperPos = cl.Pos()
+		}
+	}
+	r.Check(helperPos != token.NoPos && fallbackPos != token.NoPos && helperPos < fallbackPos, rule, fn.Name(), "a narrowed union's struct payload is addressed in place", c.pos(fn.Decl.Pos()),
+		"the address of a field of a variable narrowed from a union is taken on the copy that UnionExtract makes of the payload: `if u is Big { u.D = 50; io::Println(u.D); bump(&'u.E); io::Println(u.E); }` printed 1 and 2 — every write was lost")
 }
